@@ -4,7 +4,6 @@ V = "/verif"
 PY = "/venv/bin/python"
 NA = {
  "C09": "applicable (DESIGN 5.1) but its check is still under construction at this commit; not claimed yet",
- "C10": "applicable (DESIGN 5.2) but its check is still under construction at this commit; not claimed yet",
  "C02": "pure function of one cold fit's arguments (X, y, mixing, initialize, n); the 'random' start is an integer-seeded RandomState; no schedule, clock, fault or history can change any clause - needs an input generator + algebraic oracle (property-based testing), not simulation (DESIGN 6)",
  "C03": "linear-algebra identity between computational routes of one call; truncated solvers draw start vectors but the claim is numerical accuracy of one call, not a schedule/history statement (DESIGN 6)",
  "C04": "variational optimality over competitor subspaces; stateless, no environment input (DESIGN 6)",
@@ -45,6 +44,10 @@ checks = [
  check("C08", "c08",
   "Warm-start chains (sampled increasing schedules with jumps, every n_to_select form; all 2^(n-1) schedules for n<=6 on sampled inputs in the thorough tier), unreached thresholds set mid-chain, pickle restarts, interleaved objects, FPS initialised with a selected prefix, under clock/ARPACK/RNG faults; after every fit the object is compared (sequence, stored data, scores, distance tables) with a history-free twin: the same class cold-fitted in a quiet environment on fresh copies, modulo reference ties.",
   TB, "deterministic simulation (hostsim): seeded warm-start/restart histories vs. history-free twin (differential between histories)", "DESIGN 4"),
+ check("C10", "c10",
+  "Ridge2FoldCV is fitted with the joblib backend replaced by a simulated one (tasks executed in seeded order, batched, on pickled copies like a worker process, or twice with the first result dropped; n_jobs in {None,1,2,3}) and with the ambient RNG that draws the folds owned by the simulator; cv_values_, alpha_, best_score_, coef_ and predict are compared with an explicit two-fold Tikhonov / cut-off least-squares model in plain numpy on the folds actually used, and identical configurations under different schedules must agree. The simulated surface is the task schedule and the RNG; a defect independent of both is found by the reference model, not by fault injection (stated in DESIGN 5.2).",
+  TB + " Rank decisions use LAPACK singular values; traces with a singular value within a factor 3 of the documented cut are not judged.",
+  "deterministic simulation (hostsim): simulated joblib schedule + owned RNG, explicit two-fold reference model", "DESIGN 5.2"),
 ]
 claimed = {c["property_id"] for c in checks}
 extra = os.path.join(V, "tools", "manifest_extra.json")
